@@ -201,35 +201,48 @@ def _run_chx(ob: Chx, module: str, excludes: list[str], seed: int, tag: str) -> 
     return res
 
 
-def _run_smt(ob: Smt) -> dict:
-    from engines import smtrun
-
+def _run_smt_batch(obs: list, prop: str, tier: str, tag: str) -> dict:
+    """Run a batch of Smt obligations in one worker process; returns {name: result}."""
+    os.makedirs(WORK, exist_ok=True)
+    out = os.path.join(WORK, f"{tag}.json")
+    if os.path.exists(out):
+        os.unlink(out)
     t0 = time.time()
+    names = "\x1f".join(o.name for o in obs)
+    cmd = [PY, os.path.join(ROOT, "engines", "smt_worker.py"), prop, tier, names, out]
+    budget = sum(o.timeout * 4 * len(o.solvers) for o in obs) + 600
+    stderr = ""
     try:
-        text = ob.build()
-    except Exception as e:  # noqa: BLE001
-        return {"status": "error", "message": f"encoding failed: {type(e).__name__}: {e}", "traceback": traceback.format_exc()[-3000:],
-                "wall_s": time.time() - t0}
-    r = smtrun.solve(text, timeout=ob.timeout, solvers=ob.solvers)
-    r["wall_s"] = round(time.time() - t0, 3)
-    r["smt_bytes"] = len(text)
-    ans = r.get("answer")
-    if ans == ob.expect:
-        r["status"] = "confirmed"
-    elif ans in ("sat", "unsat"):
-        r["status"] = "cex" if ans == "sat" else "error"
-        if ans == "unsat":
-            r["message"] = "reachability/witness query unexpectedly unsat (vacuous encoding)"
-        elif ob.decode is not None:
-            try:
-                r["cex"] = ob.decode(r.get("model", {}))
-            except Exception as e:  # noqa: BLE001
-                r["status"] = "error"
-                r["message"] = f"model decode failed: {e!r}"
-    else:
-        r["status"] = "inconclusive"
-        r["message"] = f"solver answered {ans!r}: {r.get('detail', '')[:300]}"
-    return r
+        p = subprocess.run(cmd, capture_output=True, text=True, timeout=budget, cwd=ROOT, env=dict(os.environ, PYNGUIN_VERIF="1"))
+        stderr = p.stderr[-1500:]
+    except subprocess.TimeoutExpired:
+        stderr = "smt worker exceeded OS timeout"
+    raw = json.load(open(out)) if os.path.exists(out) else {}
+    if os.path.exists(out):
+        os.unlink(out)
+    results = {}
+    for ob in obs:
+        r = raw.get(ob.name)
+        if r is None:
+            results[ob.name] = {"status": "error", "message": f"smt worker produced no result: {stderr}", "wall_s": time.time() - t0}
+            continue
+        ans = r.get("answer")
+        if ans == "error":
+            r["status"] = "error"
+            r["message"] = f"{r.get('detail')} {r.get('traceback', '')[-800:]}"
+        elif ans == ob.expect:
+            r["status"] = "confirmed"
+        elif ans == "sat":
+            r["status"] = "cex"
+            r["message"] = f"solver model: {r.get('model')}"
+        elif ans == "unsat":
+            r["status"] = "error"
+            r["message"] = "witness query unexpectedly unsat (vacuous encoding)"
+        else:
+            r["status"] = "inconclusive"
+            r["message"] = f"solver answered {ans!r}: {str(r.get('detail', ''))[:300]}"
+        results[ob.name] = r
+    return results
 
 
 def _run_py(ob: Py) -> dict:
@@ -272,29 +285,35 @@ def run_property(prop: str, tier: str, seed: int, only: str | None = None, verbo
                 r2 = _run_chx(sub, prop, excludes_for(parent), seed + 1, tag + "r")
                 r2["retried_after"] = str(r.get("message"))[:300]
                 r = r2
-        elif sub.kind == "smt":
-            r = _run_smt(sub)
         else:
             r = _run_py(sub)
-        return idx, r
+        return [(idx, r)]
+
+    def smt_job(idxs: list[int]):
+        tag = f"{prop}-smt{idxs[0]}-{os.getpid()}"
+        res = _run_smt_batch([items[i][0] for i in idxs], prop, tier, tag)
+        return [(i, res[items[i][0].name]) for i in idxs]
 
     # longest-first scheduling over a pool
     order = sorted(range(len(items)), key=lambda i: -getattr(items[i][0], "timeout", 0))
     py_items = [i for i in order if items[i][0].kind == "py"]
-    par_items = [i for i in order if items[i][0].kind != "py"]
+    par_items = [i for i in order if items[i][0].kind == "chx"]
+    smt_items = [i for i in order if items[i][0].kind == "smt"]
+    batch = max(1, -(-len(smt_items) // (NCPU * 2)))
+    smt_batches = [smt_items[k:k + batch] for k in range(0, len(smt_items), batch)]
     with cf.ThreadPoolExecutor(max_workers=NCPU) as ex:
-        futs = [ex.submit(job, i) for i in par_items]
+        futs = [ex.submit(job, i) for i in par_items] + [ex.submit(smt_job, b) for b in smt_batches]
         # Py obligations run in this process (they are cheap and may share imports)
         for i in py_items:
-            idx, r = job(i)
-            results[items[idx][0].name] = r
+            for idx, r in job(i):
+                results[items[idx][0].name] = r
         for f in cf.as_completed(futs):
-            idx, r = f.result()
-            results[items[idx][0].name] = r
-            if verbose:
-                sub = items[idx][0]
-                print(f"  [{prop}] {sub.name}: {r.get('status')} paths={r.get('paths', '-')} reach={r.get('reach', '-')} "
-                      f"t={r.get('wall_s', '-')}s {str(r.get('message', ''))[:160]}", flush=True)
+            for idx, r in f.result():
+                results[items[idx][0].name] = r
+                if verbose:
+                    sub = items[idx][0]
+                    print(f"  [{prop}] {sub.name}: {r.get('status')} paths={r.get('paths', '-')} reach={r.get('reach', '-')} "
+                          f"t={r.get('wall_s', '-')}s {str(r.get('message', ''))[:160]}", flush=True)
     if verbose:
         for i in py_items:
             sub = items[i][0]
